@@ -3,6 +3,7 @@ package main
 // Evaluation of contract expressions against a symbolic state.
 
 import (
+	"runtime/debug"
 	"os"
 	"fmt"
 	"go/constant"
@@ -21,6 +22,10 @@ type SpecError struct{ Msg string }
 func (e *SpecError) Error() string { return e.Msg }
 
 func specFail(format string, args ...interface{}) {
+	if os.Getenv("GOVC_DEBUGSPEC") != "" {
+		fmt.Fprintf(os.Stderr, "specFail: "+format+"\n", args...)
+		debug.PrintStack()
+	}
 	panic(&SpecError{fmt.Sprintf(format, args...)})
 }
 
@@ -380,14 +385,9 @@ func (e *SpecEnv) ident(name string) Value {
 			}
 		}
 	}
-	if e.pkg != nil {
-		if o := e.pkg.Scope().Lookup(name); o != nil {
-			return e.object(o)
-		}
-	}
 	// a postcondition may mention a named local of the function: its value at the return
 	// (on paths where the variable was never declared the consequent is undefined)
-	if e.witFr != nil && e.fr == nil && !e.entry {
+	if e.witFr != nil && e.fr == nil {
 		for f := e.witFr; f != nil; f = f.parent {
 			if pv, ok := f.vars[name]; ok {
 				if pv.K == KPtr && pv.B == BCell {
@@ -401,12 +401,22 @@ func (e *SpecEnv) ident(name string) Value {
 				break
 			}
 		}
+		for i, p := range e.witFr.fn.Params {
+			if p.Name() == name && i < len(e.witFr.params) {
+				return e.witFr.params[i]
+			}
+		}
 		for _, b := range e.witFr.fn.Blocks {
 			for _, ins := range b.Instrs {
 				if a, ok := ins.(*ssa.Alloc); ok && a.Comment == name {
 					specFail("local-at-exit %s is not declared on this path", name)
 				}
 			}
+		}
+	}
+	if e.pkg != nil {
+		if o := e.pkg.Scope().Lookup(name); o != nil {
+			return e.object(o)
 		}
 	}
 	specFail("unknown identifier %q", name)
@@ -720,6 +730,11 @@ func (e *SpecEnv) specEq(a, b Value) string {
 			return mkEq(a.S, "0")
 		case KPtr:
 			return tFalse
+		case KOpaque:
+			// interface values of opaque external types (context.Context ...) are Int identities
+			if a.Sort == sInt || a.Sort == "" {
+				return mkEq(a.S, "0")
+			}
 		}
 		specFail("nil comparison on kind %d", a.K)
 	}
